@@ -31,7 +31,7 @@ const c03Consts = "const KV = 10\nconst KW = 7\n"
 const (
 	c03Bodies     = 9
 	c03BodiesLoop = 11
-	c03Contexts   = 8
+	c03Contexts   = 10
 )
 
 // c03Body builds body kind b for entry i. pre collects statements that must be
@@ -102,6 +102,11 @@ func c03Program(n, defPos int, bodies []int, ctx int) *model.Script {
 		body = append(append([]model.Stmt{mcmd("a")}, pre...), sw)
 	case 6:
 		body = append(pre, model.Stmt{Kind: model.SWhileInf, Body: []model.Stmt{sw}})
+	case 8: // the switch and a plain return close a nested block
+		body = append(pre, model.Stmt{Kind: model.SIf, Arms: []model.Arm{{Cond: mflag("GC"), Body: []model.Stmt{sw, {Kind: model.SReturn}}}}}, mcmd("zz"))
+	case 9: // ... or a case body of another switch
+		outer := model.Stmt{Kind: model.SSwitch, Operand: mvar("O"), Cases: []model.Case{{Val: 1, Body: []model.Stmt{sw, {Kind: model.SReturn}}}, {Val: 2, Body: []model.Stmt{mcmd("y")}}}}
+		body = append(pre, outer, mcmd("zz"))
 	default:
 		// case values written as constant expressions (the file defines const KV = 10): KV, KV + 1, ( KV ) * 2, ...
 		for i := range sw.Cases {
@@ -391,7 +396,7 @@ func runC03(tier string) int {
 	r.Assume("reference switch rule: a body-less entry shares the next entry that has a body; trailing body-less entries go to the statement after the switch; default runs iff no case value matches; bodies never fall through; break leaves the switch",
 		"var domain = every case value, its neighbours and 0 (always contains a non-matching value)")
 	return r.Finish(r.Get("evaluations"), r.Get("nontrivial"),
-		"every case list of length n (default at any position or absent) x every assignment of bodies from an 11-body alphabet (a body ending in a hand-written goto_if_set, empty, cmd, cmd+break, break+dead tail, if-break, while-with-break, nested switch, labelled body with goto into it, cmd+end, if-continue in loops; reduced alphabet at n>=5) x 8 contexts (alone, first/middle/last, in while, in do-while, in another switch, in infinite while, with case values written as constant expressions) x optimize on/off, each also written on a single source line and compiled with line markers (explored again whenever the marker-stripped output differs); plus every case list of length <= 2 (thorough 3) as the statement of a poryswitch case (4 forms) with a var and with AutoVar command operands; plus the dead-label programs (labelled statements after a break in cases, also inside an if whose case body goes on); plus switches with K cases and switches nested K deep for every K up to the scale bounds; non-trivial = >= 2 entries and >= 3 distinct observable events")
+		"every case list of length n (default at any position or absent) x every assignment of bodies from an 11-body alphabet (a body ending in a hand-written goto_if_set, empty, cmd, cmd+break, break+dead tail, if-break, while-with-break, nested switch, labelled body with goto into it, cmd+end, if-continue in loops; reduced alphabet at n>=5) x 10 contexts (alone, first/middle/last, in while, in do-while, in another switch, in infinite while, with case values written as constant expressions, followed by a plain return at the end of an if block or of another switch's case body) x optimize on/off, each also written on a single source line and compiled with line markers (explored again whenever the marker-stripped output differs); plus every case list of length <= 2 (thorough 3) as the statement of a poryswitch case (4 forms) with a var and with AutoVar command operands; plus the dead-label programs (labelled statements after a break in cases, also inside an if whose case body goes on); plus switches with K cases and switches nested K deep for every K up to the scale bounds; non-trivial = >= 2 entries and >= 3 distinct observable events")
 }
 
 // oneLine rewrites a generated source so that every statement sits on one line
